@@ -28,6 +28,7 @@ Template directives (a line whose first non-blank characters are `//@`):
       //@atexit          following lines (a proof block; `$r` stands for the returned value) are executed at EVERY exit:
                          the tail expression E becomes `{ let __r = E; <lines> __r }`, each `return X` becomes
                          `{ let __r = X; <lines> return __r; }` -- no positional anchors, robust to restructuring
+      //@bind <name> ~<regex>~   `$name` in the before/after lines = group 1 of the regex in the function's (normalised) text
       //@no <Rn>         do not apply rewrite Rn in this function
       //@assume          keep the real signature + the spliced contract, replace the body by
                          unimplemented!() under #[verifier::external_body] (contract-only callee, listed as trusted)
@@ -1125,6 +1126,7 @@ class FnSpec:
         self.assume = False
         self.wraptail = None
         self.atexit = []
+        self.binds = []       # (name, regex): `$name` in before/after lines = group 1 of the regex in the function's own text
         self.tpl_line = 0
 
 
@@ -1404,6 +1406,12 @@ class Unit:
                     fs.blocktail.append((int(d[1]), d[2], cur))
                 elif c == "no":
                     fs.no.add(d[1])
+                elif c == "bind":
+                    m = re.match(r"(\w+)\s+~(.+)~\s*$", s[3:].split(None, 1)[1])
+                    if not m:
+                        raise Undecided("malformed //@bind at %s:%d" % (relname, lno))
+                    fs.binds.append((m.group(1), m.group(2)))
+                    cur = None
                 elif c == "assume":
                     fs.assume = True
                     cur = None
@@ -1645,6 +1653,36 @@ class Unit:
                 edits.append(Edit(bend, bend, " }", ("gen", "closure-brace")))
         # before / after anchors
         sgb = _sig(toks, bo + 1, be)
+        if fs.binds:
+            # //@bind: a name the code chose for a pattern variable is looked up in the function's own text, so that the
+            # attached lines follow a renaming; a block that needs a name which is not found is dropped like a lost
+            # optional anchor (never an alarm)
+            body_txt_n = L.norm(L.text(toks, bo, be + 1))
+            bound = {}
+            for bname, brx in fs.binds:
+                bm = re.search(brx, body_txt_n)
+                if bm:
+                    bound[bname] = bm.group(1)
+            def _subst(lines_):
+                out_ = []
+                for t_, l_ in lines_:
+                    for bname, _ in fs.binds:
+                        if "$" + bname in t_:
+                            if bname not in bound:
+                                return None
+                            t_ = t_.replace("$" + bname, bound[bname])
+                    out_.append((t_, l_))
+                return out_
+            for lst_name in ("before", "after"):
+                new_lst = []
+                for k_, tok_, lines_ in getattr(fs, lst_name):
+                    sub = _subst(lines_)
+                    if sub is None:
+                        self.lost_optional.setdefault(qual, []).append("%s %d %s (unbound name)" % (lst_name, k_, tok_))
+                        self.lost_ghost.setdefault(qual, set()).update(_ghost_names(lines_))
+                        continue
+                    new_lst.append((k_, tok_, sub))
+                setattr(fs, lst_name, new_lst)
         for k, tok, lines in fs.before:
             optional = tok.endswith(" ?optional")
             if optional:
